@@ -368,3 +368,85 @@ HARNESSES.append(
       require=lambda tier: ["reader_blocked_on_cap"],
       functions=["RWLock.acquire_read/release_read/_wake_waiters/try_acquire_read"],
       bounds=lambda tier: {"readers": 3, "max_readers": 2, "start times": "symbolic ns [0,3]", "hold ns": [1, 5]}))
+
+
+# ------------------------------------------------------------------ PreemptibleResource: acquire / release scripts
+def preemptible_script(sym, tier):
+    """acquire(amount, priority, preempt) / release script on a real PreemptibleResource: outstanding
+    amount never exceeds capacity, held + available == capacity, available stays in [0, capacity],
+    only strictly lower-priority holders are preempted, a grant is given at most once, and when
+    nothing is held any more every waiter has been served."""
+    from happysimulator.components.industrial.preemptible_resource import PreemptibleResource
+    r = Result()
+    C = 2 + sym.choice("capacity_minus_2", 2)
+    res = PreemptibleResource("pr", C)
+    n = 4 if tier == "quick" else 5
+    futs = []            # (future, amount, priority)
+    script = []
+    preempted_seen = []
+
+    def live():
+        out = []
+        for (f, a, p) in futs:
+            if f.is_resolved:
+                g = f.value
+                if not g.released:
+                    out.append((g, a, p))
+        return out
+
+    for s_ in range(n):
+        op = sym.choice(f"op{s_}", 2) if s_ > 0 else 0
+        if op == 0:
+            amt = 1 + sym.choice(f"amount{s_}_minus_1", 2)
+            pri = sym.int(f"priority{s_}", 0, 2)
+            pre = sym.bool(f"preempt{s_}")
+            before = [(g, p) for (g, a, p) in live()]
+            f = res.acquire(amount=amt, priority=pri, preempt=pre)
+            futs.append((f, amt, pri))
+            script.append(("acquire", amt, pri, pre))
+            for (g, p) in before:
+                if g.preempted:
+                    r.wit.add("preemption")
+                    if not pre or not (p > pri):
+                        r.bad("only_strictly_lower_priority_holders_are_preempted", {"script": script, "victim_priority": p})
+        else:
+            lv = live()
+            if lv:
+                i = sym.choice(f"which{s_}", len(lv)) if len(lv) > 1 else 0
+                lv[i][0].release()
+                script.append(("release", lv[i][1], lv[i][2]))
+        held = sum(a for (g, a, p) in live())
+        if held > C:
+            r.bad("outstanding_amount_never_exceeds_capacity", {"script": script, "held": held, "capacity": C})
+        if res.available < 0 or res.available > C:
+            r.bad("available_stays_within_zero_and_capacity", {"script": script, "available": res.available})
+        if held + res.available != C:
+            r.bad("held_plus_available_equals_capacity", {"script": script, "held": held, "available": res.available, "capacity": C})
+        waiting = [(a, p) for (f, a, p) in futs if not f.is_resolved]
+        if waiting:
+            r.wit.add("someone_waits")
+            best = min(waiting, key=lambda w: w[1])       # highest-priority waiter (FIFO among equals is the heap's business)
+            firsts = [w for w in waiting if w[1] == best[1]]
+            if res.available >= firsts[0][0]:
+                r.bad("waiter_served_as_soon_as_capacity_allows", {"script": script, "available": res.available, "waiting": waiting})
+    # drain: release everything that is held; then nobody may be left waiting
+    for _ in range(2 * n):
+        lv = live()
+        if not lv:
+            break
+        lv[0][0].release()
+    if any(not f.is_resolved for (f, a, p) in futs):
+        r.bad("every_waiter_is_eventually_served", {"script": script})
+    if res.available != C:
+        r.bad("all_capacity_returns_after_every_release", {"script": script, "available": res.available})
+    r.obs = {"script": script}
+    return r
+
+
+HARNESSES.append(
+    H(name="c09_preemptible_script", fn=preemptible_script, shape="S", budget=lambda tier: 900.0 if tier == "quick" else 3000.0,
+      cubes=lambda tier: [{"capacity_minus_2": c, "amount0_minus_1": a, "op1": o} for c in range(2) for a in range(2) for o in range(2)],
+      require=lambda tier: ["preemption", "someone_waits"], classify=sync_classify,
+      functions=["PreemptibleResource.acquire/_try_preempt/_grant_immediate/_do_release/_wake_waiters", "PreemptibleGrant.release/_do_preempt"],
+      bounds=lambda tier: {"capacity": [2, 3], "ops": 4 if tier == "quick" else 5, "amounts": [1, 2], "priorities": "symbolic 0..2", "preempt flag": "symbolic"},
+      outside=["on_preempt callbacks that re-enter the resource"]))
